@@ -25,6 +25,12 @@ CLAIMS["C07"] = dict(
     text="The model states that the driver is decoder-independent and that a specialised decoder applies exactly the deliveries of the sections it handles; TLC checks this on every file up to the bound and the harness checks on every such file (records of all sections, valid and invalid) that each of the eight specialised decoders returns Beatmap's values for all shared fields.",
     note="Trusted: TLC, the field lists in harness/src/framing.rs::c07_diffs (written from the public struct definitions). Deeper record contents are covered because the C06/C11/C12/C14 replays run the same comparison.")
 
+CLAIMS["C12"] = dict(
+    category="model_checking", design_ref="DESIGN.md section 4, C12",
+    technique="TLA+ spec TimingLines (pending group + ControlPointOps) refined to the declarative legacy rule, checked by TLC on all line sequences up to a bound over factored alphabets; every TLC-generated sequence replayed through the real TimingPoints decoder; trace validation (Trace_TimingLines) of long random unsorted sequences with the flushed lists logged after every line",
+    text="TLC shows that the operational decoder (pending time, push-front/push-back, flush, redundancy-aware add) computes exactly the declarative legacy rule (maximal runs of close times; last inherited else first timing-change per kind; add in order) for every sequence up to the bound, with sortedness and clamp invariants; the real decoder is compared with the model's predicted four lists on every enumerated sequence under two spellings, and long random sequences recorded from the real parser must be behaviours of the same operators.",
+    note="Trusted: TLC, the spelling table harness/src/timing.rs, exactness rule (velocities on a 1/1000 lattice), times = whole ms plus 0+ (1e-17); -0 and NaN times are outside the alphabet.")
+
 NOT_YET = "check not built yet in this round (planned, see DESIGN.md section 4)"
 NA = {
     "C17": "real-valued geometry (Hausdorff distance to Bezier/arc/Catmull curves): no discrete state or history for a TLA+ specification to decide; see DESIGN.md section 4, C17",
